@@ -720,6 +720,73 @@ func runC12(tier string, seed uint64) int {
 		execs += int64(cnt[bi][0])
 		cmds += int64(cnt[bi][1])
 	}
+	// F0: no damage at all. Small and regular valid worlds (and every seed context as it is) through every
+	// output format with and without exposure, focus, and diff against themselves: unusual but valid content
+	// (one workload, address-only policies, empty results) is part of "any directory contents"
+	nF0 := 300
+	if tier == "thorough" {
+		nF0 = 6000
+	}
+	f0Hits := make([][]c12Hit, nF0)
+	f0Infra := make([]string, nF0)
+	f0Muts := make([]c12Mutant, nF0)
+	f0Ctx := make([]c12Context, nF0)
+	parallel(nF0, workers, func(i int) {
+		r := sub(seed, "C12", "F0", i)
+		f := drawFeatures(r)
+		if i%2 == 0 {
+			f.NWorkloads, f.NNetpols, f.NNamespaces = r.between(1, 2), r.between(0, 2), 1
+			f.NANPs, f.BANP, f.Large = 0, false, false
+			f.OnlyIP = r.chance(1, 3)
+			f.IPBlocks = true
+		}
+		w := genWorld(r, f)
+		f0Ctx[i] = c12Context{name: fmt.Sprintf("f0:%d", i), docs: w.Docs, pods: w.Pods}
+		f0Muts[i] = c12Mutant{ctx: i, target: 0, kind: "F0", desc: "undamaged world", text: w.Docs[0].Text, t2: -1}
+		lay := canonicalLayout(len(w.Docs))
+		fs := append(lay.fs("m", w.Docs), lay.fs("orig", w.Docs)...)
+		var steps []job.Step
+		for _, f := range c12ListFmts {
+			steps = append(steps, job.Step{Kind: job.List, Dir: "m", Fmt: f, Loud: true}, job.Step{Kind: job.List, Dir: "m", Fmt: f, Exposure: true, Loud: true})
+		}
+		for _, f := range c12DiffFmts {
+			steps = append(steps, job.Step{Kind: job.Diff, Dir1: "m", Dir2: "orig", Fmt: f, Loud: true})
+		}
+		if len(w.Workloads) > 0 {
+			wn := w.Workloads[0]
+			steps = append(steps, job.Step{Kind: job.List, Dir: "m", Fmt: "dot", Focus: wn, Loud: true}, job.Step{Kind: job.List, Dir: "m", Fmt: "json", Focus: wn[strings.Index(wn, "/")+1:], Exposure: true, Loud: true})
+		}
+		run := Run{FS: fs, Job: &job.Job{ID: f0Ctx[i].name, MapSeed: 1, Steps: steps, GC: true}}
+		res := execute(&run)
+		if res.Infra != "" {
+			f0Infra[i] = res.Infra
+			return
+		}
+		if res.Trace != nil {
+			for k := range res.Trace.Events {
+				e := &res.Trace.Events[k]
+				if e.Panic != nil {
+					st := run.Job.Steps[e.Step]
+					f0Hits[i] = append(f0Hits[i], c12Hit{m: &f0Muts[i], sig: sigFromFrames(e.Panic.Value, e.Panic.Frames), what: e.Panic.Value, step: &st})
+				}
+			}
+		}
+		if res.Trace == nil || len(res.Trace.Events) != len(steps) {
+			if s, what, ok := crashed(res); ok {
+				st := steps[0]
+				f0Hits[i] = append(f0Hits[i], c12Hit{m: &f0Muts[i], sig: s, what: what, step: &st})
+			}
+		}
+	})
+	base := len(ctxs)
+	ctxs = append(ctxs, f0Ctx...)
+	for i := range f0Hits {
+		if f0Infra[i] != "" {
+			infra("C12: %s", f0Infra[i])
+		}
+		f0Muts[i].ctx = base + i
+		hits = append(hits, f0Hits[i])
+	}
 	phase("in-process pass done")
 	// process-level passes: eval through the CLI entry point, a sample through the separately
 	// linked binary, and system-call faults on the input
